@@ -38,6 +38,14 @@ def select_specs() -> list[Spec]:
              [("self._population", "pop", LIST(AGENT)), ("new_population", "new_population", LIST(AGENT)),
               ("self._mode", "mode", "mode")], LIST(AGENT), fallible=True, state="self._population",
              attrs={**cost_attr, "pool_perm": "pool_perm", "ModeSolver.SERIAL": ("SERIAL", "mode")}),
+        Spec("gen_generate_agents", a, "OptimizationAbstract", "_generate_agents",
+             [("n_agents", "n_agents", NAT), ("self._mode", "mode", "mode")], LIST(AGENT),
+             attrs={"pool_perm": "pool_perm", "ModeSolver.SERIAL": ("SERIAL", "mode"),
+                    "idioms": {"self._init_agent()": ("(init_draw i_)", AGENT),
+                               "executor.submit(self._init_agent, self._task.empty_solution())": ("(init_draw i_)", AGENT)}}),
+        Spec("gen_init_population", a, "OptimizationAbstract", "_init_population",
+             [("self._population", "pop", LIST(AGENT)), ("self._config.population_size", "population_size", NAT), ("self._mode", "mode", "mode")],
+             LIST(AGENT), state="self._population", attrs={"pool_perm": "pool_perm"}),
         Spec("gen_extend_and_trim_population", a, "OptimizationAbstract", "_extend_and_trim_population",
              [("self._population", "pop", LIST(AGENT)), ("new_population", "new_population", LIST(AGENT)),
               ("self._config.population_size", "population_size", NAT)], LIST(AGENT), state="self._population", attrs=cost_attr),
@@ -134,6 +142,20 @@ def init_specs() -> list[Spec]:
     ]
 
 
+def trend_specs() -> list[Spec]:
+    u = "utils.py"
+    EVO = LIST(LIST(AGENT))
+    ps = [("result.evolution", "evo", EVO), ("result.task_type", "d", DIR), ("idx", "idx", NAT), ("iters", "iters", OPT(LIST(NAT)))]
+    pb = [("result.evolution", "evo", EVO), ("result.task_type", "d", DIR), ("iters", "iters", OPT(LIST(NAT)))]
+    cell = lambda field, sel, ty: {"idioms": {f"sort_by_cost(result.evolution[i].agents, result.task_type)[idx].{field}": (f"(trend_cell A cost {ty} {sel} evo d {{i}} {{idx}})", RES(ty))}}
+    return [
+        Spec("gen_agent_trend", u, None, "agent_trend", ps, LIST(X), fallible=True, attrs=cell("cost", "cost", X), skip_params=("result",)),
+        Spec("gen_best_agent_trend", u, None, "best_agent_trend", pb, LIST(X), fallible=True, skip_params=("result",)),
+        Spec("gen_agent_position", u, None, "agent_position", ps, LIST("POS"), fallible=True, attrs=cell("position", "pos", "POS"), skip_params=("result",)),
+        Spec("gen_best_agent_position", u, None, "best_agent_position", pb, LIST("POS"), fallible=True, skip_params=("result",)),
+    ]
+
+
 def emit_group(repo: Path, fname: str, imports: str, section_vars: str, specs: list[Spec], status: dict,
                extra: str = "") -> None:
     tr = Translator(repo, specs)
@@ -161,7 +183,7 @@ def regenerate(repo: Path) -> dict:
                "Import ListNotations.\n")
     emit_group(repo, "GenSelect.v", imports,
                "Variable A : Type.\nVariable cost : A -> xnum.\nVariable copy : A -> A.\n"
-               "Variable pool_perm : list A -> list A.\n", select_specs(), status)
+               "Variable pool_perm : list A -> list A.\nVariable init_draw : nat -> A.\n", select_specs(), status)
     emit_group(repo, "GenVars.v", "From Coq Require Import List ZArith Bool Arith.\nFrom PV Require Import Xnum Select PyLib Argsort.\n"
                "Import ListNotations.\n",
                "Variable C : Type.\nVariable L : Type.\nVariable inverse_transform : list nat -> list L.\n", vars_specs(), status)
@@ -176,6 +198,9 @@ def regenerate(repo: Path) -> dict:
                "Variable obj : list coord -> objv.\n"
                "Variable F : Type.\nVariables (fadd fdiv : F -> F -> F) (fabs fopp : F -> F) (fleb fltb : F -> F -> bool) (fzero fone : F).\n",
                init_specs(), status)
+    emit_group(repo, "GenTrend.v", "From Coq Require Import List ZArith Bool Arith.\nFrom PV Require Import Xnum Select PyLib Trend.\n"
+               "Import ListNotations.\n",
+               "Variable A : Type.\nVariable cost : A -> xnum.\nVariable POS : Type.\nVariable pos : A -> POS.\n", trend_specs(), status)
     from . import tschema
     tschema.emit(repo, status)
     from . import talgo, expected
